@@ -26,7 +26,8 @@ RULE = ("scripted runs of async_map_unordered: n inputs, per submission (ok|erro
         "family n in 10..30 with stragglers so that backups launch, twins tie or fail, batch_size>=10 with backups, plus a "
         "sub-family (3 of 8) where the original of a straggler fails while its slow backup is still pending for further rounds; "
         "non-trivial = at least one failure, tie, backup or batch refill; distinct by case text. end to end: 3..30-chunk "
-        "computations, retries {default,0,1,2} x k in 0..3 injected failures x get/set x executor")
+        "computations, retries {default,0,1,2} (as compute() argument and as executor option) x k in 0..3 injected failures x "
+        "get/set x executor; the budget cases k in {r, r+1, always failing} for every r are always run")
 ASSUMPTIONS = [
     "asyncio.wait(FIRST_COMPLETED, timeout) returns exactly the pending futures that are done when it wakes; futures with equal deadlines complete in one loop turn (validated on the virtual-time loop)",
     "create_futures_func returns one fresh future per input (threads/processes_create_futures_func: list comprehension over the inputs)",
@@ -498,8 +499,11 @@ def oracle_retry(ctx):
 
 # ---- end to end -------------------------------------------------------------------------------------
 
-def e2e_case(executor, retries, k, op, nchunks=3, use_backups=None, batch_size=None):
+def e2e_case(executor, retries, k, op, nchunks=3, use_backups=None, batch_size=None, via=None):
+    """`via`: how `retries` reaches the executor — None: compute(..., retries=r); "options": Executor(retries=r)"""
     c = {"executor": executor, "retries": retries, "k": k, "fault_op": op, "nchunks": nchunks}
+    if via is not None:
+        c["via"] = via
     if use_backups is not None:
         c["use_backups"] = use_backups
     if batch_size is not None:
@@ -542,7 +546,10 @@ def run_e2e(case):
         for key in ("retries", "use_backups", "batch_size"):
             if case.get(key) is not None:
                 kw[key] = case[key]
-        exe = ThreadsExecutor() if case["executor"] == "threads" else ProcessesExecutor()
+        xkw = {}
+        if case.get("via") == "options" and "retries" in kw:
+            xkw["retries"] = kw.pop("retries")        # executor_options instead of a compute() argument
+        exe = ThreadsExecutor(**xkw) if case["executor"] == "threads" else ProcessesExecutor(**xkw)
         out = {"outcome": "ok", "error": None, "equal": None}
         try:
             with contextlib.redirect_stdout(io.StringIO()):      # cubed prints when it launches a backup
@@ -629,9 +636,24 @@ def run_empty_region(batch_size):
         shutil.rmtree(d, ignore_errors=True)
 
 
-def oracle_e2e(ctx):
-    thorough = ctx.tier == "thorough"
-    cases = []
+def core_e2e_cases(executors=("threads",)):
+    """always run, both tiers: the retry budget through the real executor entry points (compute(..., retries=r) and
+    Executor(retries=r)) for every explicit r in {0,1,2} and the default: a chunk access that fails k = r times must
+    succeed on attempt r+1; one that always fails (k = 3) must raise the task's error after exactly r+1 attempts"""
+    out = []
+    for exe in executors:
+        j = 0
+        for r in (0, 1, 2, None):
+            R = 2 if r is None else r
+            for k in sorted({R, R + 1, 3}):
+                j += 1
+                out.append(e2e_case(exe, r, k, "set" if j % 2 else "get", via="options" if (j % 3 == 0 and r is not None) else None))
+    return out
+
+
+def oracle_e2e(ctx, deep=False):
+    thorough = ctx.tier == "thorough" or deep
+    cases = core_e2e_cases(("threads",))
     for retries in (None, 0, 1, 2):
         for k in (0, 1, 2, 3):
             for op in ("set", "get"):
@@ -644,10 +666,10 @@ def oracle_e2e(ctx):
                               nchunks=ctx.rng.choice([12, 25, 30]), use_backups=True, batch_size=ctx.rng.choice([10, 11])))
     # regression triggers of the repaired processes-executor defects: one transient chunk IO failure with default retries
     # must succeed; the `retries=` option must be accepted and honoured
-    pc = [e2e_case("processes", None, 1, "set"), e2e_case("processes", 1, 0, "get"), e2e_case("processes", 1, 2, "set"),
-          e2e_case("processes", 0, 0, "set")]
+    pc = [e2e_case("processes", None, 1, "set"), e2e_case("processes", 0, 1, "get"), e2e_case("processes", 1, 3, "set"),
+          e2e_case("processes", 2, 2, "get", via="options"), e2e_case("processes", 0, 3, "set", via="options")]
     if thorough:
-        pc += [e2e_case("processes", r, k, op) for r in (None, 0, 2) for k in (0, 2, 3) for op in ("set",)][1:]
+        pc += core_e2e_cases(("processes",))
         pc += [e2e_case("processes", 2, 1, "get"), e2e_case("processes", None, 3, "get")]
         pc += [e2e_case("processes", None, 1, "get", nchunks=12, use_backups=True, batch_size=10)]
     cases += pc
@@ -693,6 +715,8 @@ def search(ctx):
             for case in small_cases(n):
                 check_run(ctx, case, run_real(case))
     oracle_retry(ctx)
+    if not any(f["key"] is None for f in ctx.failures):
+        oracle_e2e(ctx, deep=True)
 
 
 def replay(ctx, body):
